@@ -564,7 +564,10 @@ def check_roundtrip(ctx, cases):
                 continue
             if 'option_dependent' in r:
                 ctx.violation('%s: validity of %r depends on decode options %s' % (c['name'], text, r['option_dependent']), rep)
-            if 'roundtrip' in r:
+            if 'roundtrip' in r and c['version'] == '1.1' and c['name'] in ('xs:gYear', 'xs:gYearMonth', 'xs:date', 'xs:dateTime') \
+                    and re.match(r'\s*-[0-9]{5,}', text):
+                ctx.known_finding('F-C02b')     # elementpath (XSD 1.1): str() of negative years with more than four digits
+            elif 'roundtrip' in r:
                 ctx.violation('%s: %s' % (c['name'], r['roundtrip']), rep)
             if ref is not None:
                 want = re.fullmatch(ref, text) is not None
